@@ -96,6 +96,8 @@ def replay(rep: dict) -> int:
     e = rep["event"]
     rng = random.Random(1)
     name = e.get("cls", "BestBatchSampler")
+    if e.get("job"):
+        return finish(chk, sh.run_jobs([e["job"]], procs=1), {"sample", "bestbatch", "select"} if e["job"].get("watch") else {"sample"}, "replay of the stored job")
     results = sh.run_jobs([{"name": name, "bounds": e["bounds"], "prec": e["prec"], "rem": e.get("rem", [0] * len(e["prec"])), "bs": e["bs"],
                             "seed": e["seed"], "ncalls": 3, "rseed": 1, "typed": e.get("typed")}], procs=1)
     return finish(chk, results, {"sample"}, "replay")
